@@ -9,6 +9,7 @@ CONSTANTS
   FixLock = TRUE
   FixInit = TRUE
   FixIsSet = TRUE
+  DetTime = FALSE
   Locked = FALSE
 INVARIANT NoLostWakeup
 CHECK_DEADLOCK FALSE
